@@ -699,8 +699,8 @@ class C11(Prop):
         "checked by the oracle on the real code, not proved",
         "co-chaperone preprocessors and the on_misfold callback are the caller's own functions: arbitrary functions that "
         "return or raise (Hooks); a co-chaperone returns a str; an exception a callback raises leaves the fold and is not "
-        "held against 'no raw text makes folding raise'; strategies are members of FoldingStrategy; the healing loop is "
-        "modelled over an instance without callbacks",
+        "held against 'no raw text makes folding raise' (nor against the healing loop, which has no try); strategies are "
+        "members of FoldingStrategy",
         "the text of error messages and duration_ms are not observed",
     ]
     trusted_modelled = [
@@ -854,6 +854,7 @@ class C11(Prop):
             return ch
 
         def show_hooks(raw):
+            echo_ok = raw if callable(raw) else (lambda t, _r=raw: t == _r)
             toks = []
             for h in hooklog:
                 if h["k"] == "p":
@@ -864,7 +865,7 @@ class C11(Prop):
                     atts = "+".join(self.strat_letter.get(a, "?") + show_bool(ok) for a, ok in h["attempts"])
                     toks.append("m:" + "/".join([show_bool(h["valid"] is True),
                                                  "none" if h["structure"] is None else str(REC.sid(h["structure"])),
-                                                 show_bool(h["error_trace"] is not None), show_bool(h["raw"] == raw),
+                                                 show_bool(h["error_trace"] is not None), show_bool(bool(echo_ok(h["raw"]))),
                                                  self.show_conf(h["confidence"]), atts])
                                 + (":ok" if h["exc"] is None else ":raise"))
             return "hooks=[" + ",".join(toks) + "]"
@@ -1181,9 +1182,8 @@ class C11(Prop):
                 outs = [unhexs(h) for h in t[3].split(",")]
                 ch = current()
                 ctor = "".join(owns[chs.index(ch)])
-                if co_own[chs.index(ch)].get(spec) is not None or mf_own[chs.index(ch)] is not None:
-                    emit(line, "skipped-callbacks")      # the healing loop is modelled over an instance without callbacks
-                    continue
+                inst_i = chs.index(ch)
+                cofn, mfn = co_own[inst_i].get(spec), mf_own[inst_i]
                 n_calls = [0]
 
                 def scripted(prompt, error_context=None, _outs=outs, _n=n_calls):
@@ -1193,8 +1193,27 @@ class C11(Prop):
                 REC.top = S
                 REC.calls = []
                 REC.describe_schema(S)
+                fed = {}                 # generated text -> the text the strategies should work on (None: the co-chaperone raises)
                 for o_ in dict.fromkeys(outs):
                     REC.prepare_text(ch, o_)
+                    fed[o_] = o_
+                    if cofn is not None:
+                        hk = ("H", cofn, o_, id(S))
+                        try:
+                            fed[o_] = CO_FNS[cofn](o_)
+                            res_tok = None
+                        except Exception as e:
+                            fed[o_] = None
+                            res_tok = "raise " + type(e).__name__
+                        if fed[o_] is not None and fed[o_] != o_:
+                            REC.prepare_text(ch, fed[o_])
+                        if hk not in h_done:
+                            h_done.add(hk)
+                            REC.pending.append(f"env H {cofn} {REC.text(o_)} " + (res_tok or ("ok " + REC.text(fed[o_]))))
+                if mfn is not None:
+                    exc, truthy = MISFOLD_FNS[mfn]
+                    REC.pending.append(f"env G {mfn} {int(truthy)} " + ("ok" if exc is None else "raise " + type(exc).__name__))
+                del hooklog[:]
                 REC.active = True
                 err = None
                 r = None
@@ -1208,12 +1227,13 @@ class C11(Prop):
                     REC.active = False
                 for el in REC.take_pending():
                     emit(el, "ok")
-                calls = "calls=[" + ",".join(str(i) for i in REC.calls) + "]"
+                calls = show_hooks(lambda t_, _o=outs: t_ in _o) + " calls=[" + ",".join(str(i) for i in REC.calls) + "]"
                 if REC.nondet:
                     calls += " nondeterministic-library"
                 cp_ = owns_copy.get(chs.index(ch))
                 info = {"op": "heal", "S": S, "result": r, "error": err, "outs": outs, "generator_calls": n_calls[0],
-                        "max_retries": int(t[1]), "ctor": ctor, "ambiguous": cp_ is not None and "".join(cp_) != ctor}
+                        "max_retries": int(t[1]), "ctor": ctor, "ambiguous": cp_ is not None and "".join(cp_) != ctor,
+                        "texts": fed, "hooklog": list(hooklog), "cofn": cofn, "mfn": mfn}
                 if err is not None:
                     emit(line, f"raise:{type(err).__name__} {calls}", info)
                     continue
@@ -1282,30 +1302,7 @@ class C11(Prop):
             # by the same text: "when it reports invalid, no structure is returned and an error trace is", "confidence
             # lies in [0,1] and is 1.0 only for strict"; and one fold is reported one way (not invalid to the callback and
             # valid to the caller)
-            cb_excs = []
-            for h in x.get("hooklog", ()):
-                if h["exc"] is not None:
-                    cb_excs.append(h["exc"])
-                if h["k"] != "m":
-                    continue
-                if "broken" in h:
-                    out.append(Violation("invalid_has_no_structure_and_a_trace", "a report object", type(h["broken"]).__name__, idx))
-                    continue
-                if h["valid"]:
-                    if h["structure"] is None or not isinstance(h["structure"], S):
-                        out.append(Violation("valid_structure_is_schema_instance", f"instance of {S.__name__}",
-                                             f"on_misfold got valid=True structure={h['structure']!r}"[:200], idx))
-                elif h["structure"] is not None or not isinstance(h["error_trace"], str) or not h["error_trace"]:
-                    out.append(Violation("invalid_has_no_structure_and_a_trace", "structure None, non-empty trace",
-                                         f"on_misfold got structure={h['structure']!r} trace={h['error_trace']!r}"[:200], idx))
-                c = h["confidence"]
-                if not (isinstance(c, (int, float)) and 0.0 <= c <= 1.0):
-                    out.append(Violation("confidence_in_unit_interval", "[0,1]", f"on_misfold got confidence {c!r}", idx))
-                elif c == 1.0 and not (h["valid"] and h["strategy_used"] == FS.STRICT):
-                    out.append(Violation("confidence_one_only_for_strict", "< 1.0", f"on_misfold got confidence {c}", idx))
-                if x["error"] is None and r is not None and bool(h["valid"]) != bool(r.valid):
-                    out.append(Violation("one_fold_is_reported_one_way", f"valid={r.valid} (returned)",
-                                         f"valid={h['valid']} (handed to on_misfold)", idx))
+            cb_excs = self.judge_hooklog(idx, x, S, r if x["error"] is None else None, out)
             # "No raw text makes folding raise."  (an exception the caller's own callback raised is the caller's)
             if x["error"] is not None:
                 if not any(x["error"] is e for e in cb_excs):
@@ -1409,12 +1406,46 @@ class C11(Prop):
                                          repr(b.structure)[:150], max(i1, i2)))
         return out
 
+    def judge_hooklog(self, idx, x, S, returned, out) -> list:
+        """the reports the validator handed to the caller's on_misfold callback, judged by the property text; returns the
+        exceptions the caller's own callbacks raised"""
+        FS = self.m.FoldingStrategy
+        cb_excs = []
+        for h in x.get("hooklog", ()):
+            if h["exc"] is not None:
+                cb_excs.append(h["exc"])
+            if h["k"] != "m":
+                continue
+            if "broken" in h:
+                out.append(Violation("invalid_has_no_structure_and_a_trace", "a report object", type(h["broken"]).__name__, idx))
+                continue
+            if h["valid"]:
+                if h["structure"] is None or not isinstance(h["structure"], S):
+                    out.append(Violation("valid_structure_is_schema_instance", f"instance of {S.__name__}",
+                                         f"on_misfold got valid=True structure={h['structure']!r}"[:200], idx))
+            elif h["structure"] is not None or not isinstance(h["error_trace"], str) or not h["error_trace"]:
+                out.append(Violation("invalid_has_no_structure_and_a_trace", "structure None, non-empty trace",
+                                     f"on_misfold got structure={h['structure']!r} trace={h['error_trace']!r}"[:200], idx))
+            c = h["confidence"]
+            if not (isinstance(c, (int, float)) and 0.0 <= c <= 1.0):
+                out.append(Violation("confidence_in_unit_interval", "[0,1]", f"on_misfold got confidence {c!r}", idx))
+            elif c == 1.0 and not (h["valid"] and h["strategy_used"] == FS.STRICT):
+                out.append(Violation("confidence_one_only_for_strict", "< 1.0", f"on_misfold got confidence {c}", idx))
+            if returned is not None and bool(h["valid"]) != bool(returned.valid):
+                out.append(Violation("one_fold_is_reported_one_way", f"valid={returned.valid} (returned)",
+                                     f"valid={h['valid']} (handed to on_misfold)", idx))
+        return cb_excs
+
     def oracle_heal(self, idx, x):
         """the same property text, on what the healing loop hands back (it rewrites the validator's confidence)"""
         out = []
         FS = self.m.FoldingStrategy
+        cb_excs = self.judge_hooklog(idx, x, x["S"], None, out)
         if x["error"] is not None:
-            return [Violation("folding_never_raises", "a HealingResult", f"raise:{type(x['error']).__name__}", idx)]
+            # an exception the caller's own callback raised is the caller's (the loop has no `try`)
+            if not any(x["error"] is e for e in cb_excs):
+                out.append(Violation("folding_never_raises", "a HealingResult", f"raise:{type(x['error']).__name__}", idx))
+            return out
         r, S = x["result"], x["S"]
         confs = [("final_confidence", r.final_confidence)] + [(f"attempt {a.attempt_number}", a.confidence) for a in r.attempts]
         if r.folded is not None:
@@ -1443,6 +1474,8 @@ class C11(Prop):
                                              repr(raw)[:100], idx))
                     else:
                         text = x.get("texts", {}).get(raw, raw)      # what the caller's own co-chaperone makes of it
+                        if text is None:
+                            text = raw
                         bad = unsupported_leaves(f.structure, S, text) or made_up_characters(f.structure, S, text)
                         if bad:
                             out.append(Violation("valid_structure_obtained_from_raw_text",
@@ -1465,6 +1498,8 @@ class C11(Prop):
             for a in r.attempts:
                 if not a.success and isinstance(a.raw_output, str):
                     text = x.get("texts", {}).get(a.raw_output, a.raw_output)
+                    if text is None:
+                        continue
                     try:
                         plain_validate(S, real_json.loads(text))
                     except Exception:
@@ -1886,6 +1921,17 @@ class C11(Prop):
                      "cochap del", "misfold -", f"foldx {hexs(clean)} none", f"fold {hexs(bad)} none",
                      f"heal 1 1/10 {hexs(clean)}", f"cochap set:{co}", f"fold {hexs(prose3)} s", f"foldx {hexs(prose3)} s", "stats"]
                 hook_cases.append({"lines": L, "note": "callbacks registered on one of several instances, per schema class; unregistered again"})
+        for co in ["-", "brace", "redact", "rs", "rv", "quotes"]:
+            for mf in ["-", "ok", "rv"] + (["falsy", "r0"] if tier != "quick" else []):
+                if co == "-" and mf == "-":
+                    continue
+                good, prose3, sq, bad = '{"a": 12, "b": "x"}', 'so {"a": 34} ok', "{'a': 5}", "nope"
+                L = [f"schema {spec}", f"newh none {co} {mf}"]
+                for outs, n in [([good], 0), ([bad, good], 1), ([bad, bad, prose3], 3), ([bad, bad], 1), ([sq], 0), ([prose3, good], 2)]:
+                    L.append(f"heal {n} 1/4 " + ",".join(hexs(o) for o in outs))
+                L += ["stats", f"foldx {hexs(good)} none", f"fold {hexs(bad)} none", "stats"]
+                hook_cases.append({"lines": L, "note": "the healing loop over an instance with callbacks: co-chaperone x on_misfold x "
+                                                       "misfolds before a foldable text"})
         alias_cases = []
         clean, prose2 = '{"a": 1, "b": "x"}', 'so {"a": "2"} ok'
         for first in ["rs", "s", "e", "selr", "-"]:
